@@ -115,6 +115,8 @@ def check_schema(meta, res, parts, where):
         if mk == "frame":
             for j, c in enumerate(meta.columns):
                 col = res.iloc[:, j]
+                if col.isna().all() and col.dtype.kind in "fO":
+                    continue  # a column without any value: pandas' concat / combine give it float64 or object whatever it was declared
                 if not dtype_compatible(meta.dtypes.iloc[j], col.dtype, bool(col.isna().any()), "kindpromo"):
                     out.append(("dtype-kind", f"{where}: column {c!r} declared {meta.dtypes.iloc[j]}, computed {col.dtype}"))
                     return out
